@@ -4,6 +4,7 @@ import vlib
 from vlib import tlc, run_bin, kvtrace_validate, scratch, seed, log
 
 CONSTS = {"NI": 2, "NV": 2, "NVal": 2}
+_SELFTEST_DONE = False
 
 
 def model_check(ck, tier):
@@ -38,6 +39,74 @@ def replay_and_judge(ck, behaviours, capa, hard, tag, orphan=False):
     n, bad, r = kvtrace_validate(tpath, CONSTS)
     ck.add_tlc("KVTrace validation (%s)" % tag, r)
     events = [json.loads(l) for l in open(tpath)]
+    # code -> spec: every run of a single-arm strategy is validated against Tiered.tla (TieredTrace.tla); MODEL-DRIFT only
+    mpath = os.path.join(sd, "%s.%s.mstate.ndjson" % (ck.pid, tag))
+    runs, cur, nb = [], None, 0
+    with open(mpath, "w") as f:
+        for e in events:
+            if e["ev"] == "reset":
+                cur = None
+            elif e["ev"] == "mstate" and e.get("arms") == 1:
+                if cur is None:
+                    nb += 1; cur = nb; runs.append(0)
+                runs[cur - 1] += 1
+                f.write(json.dumps({"b": cur, "op": e["op"], "hr": e["hr"], "vr": e["vr"], "lr": e["lr"]}) + "\n")
+    if nb:
+        r2 = vlib.tlc("TieredTrace", workers=4, env={"TRACE": mpath}, timeout=1200, xmx="6g",
+                      consts=dict(CONSTS, CapA=capa, Hard=hard, MaxOps=1000, MaxPokes=1000, AllowOrphan="TRUE"))
+        ck.add_tlc("TieredTrace: %d runs of the real engine validated against Tiered.tla (%s)" % (nb, tag), r2,
+                   note="every step must be the model's action with the observed recent-write-tier residency, canonical versions and "
+                        "document-cache membership after it; cache admission is inferred by TLC")
+        reach = {}
+        for m in vlib.re.finditer(r'<<\s*"AT",\s*(\d+),\s*(\d+)\s*>>', r2.out):
+            k, l = int(m.group(1)), int(m.group(2))
+            reach[k] = max(reach.get(k, 0), l)
+        agg = ck.cov.setdefault("model_state_conformance", {"runs": 0, "accepted": 0, "steps_matched": 0})
+        rejected = []
+        for k, n_ev in enumerate(runs, 1):
+            got = reach.get(k, 1) - 1
+            agg["runs"] += 1; agg["steps_matched"] += got
+            if got == n_ev and not r2.violation and not r2.error:
+                agg["accepted"] += 1
+            else:
+                rejected.append((k, got, n_ev))
+        if r2.violation or r2.error:
+            log(r2.out[-2000:])
+            ck.drift("TieredTrace (%s): TLC reported %s on the image of a real run" % (tag, r2.violation or "an error"))
+        for k, got, n_ev in rejected[:3]:
+            ck.drift("run %d of the real engine (%s) is not a behaviour of Tiered.tla: %d of %d steps matched" % (k, tag, got, n_ev))
+        # self-test of the binding (once per check run): one observation of an accepted run corrupted -> TLC must reject the run
+        global _SELFTEST_DONE
+        if not _SELFTEST_DONE and not rejected:
+            _SELFTEST_DONE = True
+            lines = [json.loads(x) for x in open(mpath)]
+            cpath, ncorr, k2 = mpath + ".corrupt", 0, 0
+            with open(cpath, "w") as f:
+                for k in range(1, min(nb, 45) + 1):
+                    evs = [dict(x) for x in lines if x["b"] == k]
+                    if len(evs) < 3:
+                        continue
+                    k2 += 1
+                    j, field = (k * 7) % len(evs), ("hr", "vr", "lr")[k % 3]
+                    evs[j][field] = [(not x) if isinstance(x, bool) else x + 1 for x in evs[j][field]][:1] + list(evs[j][field][1:])
+                    for x in evs:
+                        f.write(json.dumps(dict(x, b=k2)) + "\n")
+                    ncorr += 1
+            r3 = vlib.tlc("TieredTrace", workers=2, env={"TRACE": cpath}, timeout=600, xmx="4g",
+                          consts=dict(CONSTS, CapA=capa, Hard=hard, MaxOps=1000, MaxPokes=1000, AllowOrphan="TRUE"))
+            ck.add_tlc("TieredTrace self-test: %d real runs with one corrupted observation each" % ncorr, r3)
+            reach3 = {}
+            for m in vlib.re.finditer(r'<<\s*"AT",\s*(\d+),\s*(\d+)\s*>>', r3.out):
+                reach3[int(m.group(1))] = max(reach3.get(int(m.group(1)), 0), int(m.group(2)))
+            counts = {}
+            for x in (json.loads(y) for y in open(cpath)):
+                counts[x["b"]] = counts.get(x["b"], 0) + 1
+            slipped = [k for k, n_ev in counts.items() if reach3.get(k, 1) - 1 == n_ev]
+            os.unlink(cpath)
+            if slipped or ncorr < 5:
+                raise vlib.ToolError("TieredTrace self-test: %d corrupted runs, %d accepted although corrupted" % (ncorr, len(slipped)))
+            agg["selftest_corrupted_runs_rejected"] = ncorr
+    os.unlink(mpath)
     run_of, cfgs, cur = [], {}, -1
     for e in events:
         if e["ev"] == "reset":
